@@ -13,5 +13,6 @@ func controlsC03() []Control {
 		{Name: "new player records the requested seat, not the assigned one", Expect: "R4", Mutate: replaceIn("(*tableEngine).batchAddPlayers", "Seat:           seat,", "Seat:           player.Seat,", 0)},
 		{Name: "PlayerRedeemChips patches the seat map in place", Expect: "R6", Mutate: replaceIn("(*tableEngine).PlayerRedeemChips", "playerState.Bankroll += joinPlayer.RedeemChips", "playerState.Bankroll += joinPlayer.RedeemChips\n\tte.table.State.SeatMap[0] = playerIdx", 0)},
 		{Name: "PlayersLeave also calls the seat manager directly", Expect: "R6", Mutate: replaceIn("(*tableEngine).PlayersLeave", "te.emitEvent(\"PlayersLeave\"", "te.sm.RemoveSeats(playerIDs)\n\tte.emitEvent(\"PlayersLeave\"", 0)},
+		{Name: "seat map entry of a new player off by one", Expect: "R4", Mutate: replaceIn("(*tableEngine).batchAddPlayers", "newPlayerIdx := len(te.table.State.PlayerStates) + len(newPlayers) - 1", "newPlayerIdx := len(te.table.State.PlayerStates) + len(newPlayers)", 0)},
 	}
 }
